@@ -786,6 +786,15 @@ class AwareASTNode(DataClassSerializeMixin):
                 new_node=new,
             )
 
+        if new is not None and any(n.id == self.id for n in new.dfs(skip_self=True)):
+            # The new node takes over the ID of this node, which must stay unique in the new subtree
+            raise ASTNodeReplaceWithError(
+                f"Failed to replace AST Node <{self.id}> with <{new.id}> "
+                "because the new node has a descendant with the ID of the node being replaced",
+                node=self,
+                new_node=new,
+            )
+
         if self.parent is not None:
             # It is a subtree
 
